@@ -104,24 +104,15 @@ Proof.
   unfold exec_db. intros H Hdt. cbn [exec] in H. rewrite Hdt in H.
   destruct (find_ctable src (db_cat d)) as [st|]; [|discriminate].
   destruct (find (fun n => negb (has_ccol n dt)) cs) eqn:F; [discriminate|].
-  destruct (find (fun e => match e with SelCol n => negb (has_ccol n st) | SelExpr _ _ => false end) (map SelCol cs)) as [[?|? ?]|];
-    try discriminate.
-  - destruct (negb (Nat.eqb (List.length cs) (List.length (map SelCol cs)))); [discriminate|].
-    cbn [andb] in H.
-    destruct (negb (rowid_ok dt _)); [discriminate|].
-    destruct (nonempty (pk_columns dt) && _)%bool; [discriminate|].
-    destruct (first_null dt _); [discriminate|]. destruct (first_failed_check dt _); [discriminate|].
-    injection H as <-. cbn [db_rows db_cat]. repeat split.
-    apply forallb_forall. intros x Hx. destruct (has_ccol x dt) eqn:E; [reflexivity|].
-    exfalso. eapply find_none in F; [|exact Hx]. rewrite E in F. discriminate.
-  - destruct (negb (Nat.eqb (List.length cs) (List.length (map SelCol cs)))); [discriminate|].
-    cbn [andb] in H.
-    destruct (negb (rowid_ok dt _)); [discriminate|].
-    destruct (nonempty (pk_columns dt) && _)%bool; [discriminate|].
-    destruct (first_null dt _); [discriminate|]. destruct (first_failed_check dt _); [discriminate|].
-    injection H as <-. cbn [db_rows db_cat]. repeat split.
-    apply forallb_forall. intros x Hx. destruct (has_ccol x dt) eqn:E; [reflexivity|].
-    exfalso. eapply find_none in F; [|exact Hx]. rewrite E in F. discriminate.
+  destruct (find _ (map SelCol cs)) as [[?|? ?]|]; try discriminate.
+  destruct (negb (Nat.eqb (List.length cs) (List.length (map SelCol cs)))); [discriminate|].
+  cbn [andb] in H.
+  destruct (negb (rowid_ok dt _)); [discriminate|].
+  destruct (nonempty (pk_columns dt) && _)%bool; [discriminate|].
+  destruct (first_null dt _); [discriminate|]. destruct (first_failed_check dt _); [discriminate|].
+  injection H as <-. cbn [db_rows db_cat]. repeat split.
+  apply forallb_forall. intros x Hx. destruct (has_ccol x dt) eqn:E; [reflexivity|].
+  exfalso. eapply find_none in F; [|exact Hx]. rewrite E in F. discriminate.
 Qed.
 
 Lemma exec_drop_rows d t d3 :
